@@ -476,6 +476,15 @@ func (h *dbHarness) exec(op *DBOp) {
 		h.checkScan(h.model.Len())
 	case "reopen":
 		pos := h.model.Len()
+		if h.cfg.DisableWAL {
+			// Without a WAL a clean Close keeps only what was flushed (the
+			// property promises Close durability only with the WAL enabled).
+			if err := h.db.Flush(); err != nil {
+				h.opErr("flush", err)
+			} else {
+				h.durs = append(h.durs, durPoint{pos: pos, ackIdx: h.disk.LogLen(), what: "flush"})
+			}
+		}
 		h.closeDB()
 		if !h.cfg.DisableWAL {
 			h.durs = append(h.durs, durPoint{pos: pos, ackIdx: h.disk.LogLen(), what: "close"})
